@@ -43,15 +43,11 @@ EXEMPT = {
     ("kanata_keyberon::layout::OneShotState", "released_keys"): "drained together with OneShotState.keys, which the predicate reads",
     ("kanata_keyberon::layout::OneShotState", "other_pressed_keys"): "drained together with OneShotState.keys, which the predicate reads",
     ("kanata_keyberon::chord::ChordsV2", "ticks_until_next_state_change"): "counts only while ChordsV2.queue is non-empty, which the predicate reads",
-    ("kanata_state_machine::kanata::dynamic_macro::DynamicMacroRecordState", "macro_items"): "changed by key events while recording",
     ("kanata_state_machine::kanata::Kanata", "cur_cfg_idx"): "changed by the lrld-next/prev/num key actions and by a finished reload only (event-driven)",
     ("kanata_state_machine::kanata::Kanata", "loaded_cfg_idx"): "set by a successful reload only (event-driven)",
     ("kanata_state_machine::kanata::Kanata", "keys_hidden_by_sequence"):
         "grows when a key is pressed during a hidden-mode sequence and shrinks in the release loop, when that key's release is sent: "
         "both are driven by key events, nothing counts down",
-    ("kanata_state_machine::kanata::dynamic_macro::DynamicMacroRecordState", "current_delay"):
-        "recorded inter-key delay; it stops counting only once every covered timer has expired, and replay decisions depend only "
-        "on those timers (triaged with notes/triage_harness.rs.txt: stepper and blocking loop replay identically)",
     ("kanata_state_machine::kanata::sequences::SequenceState", "ticks_until_timeout"): "counts only while activity != Inactive, which the predicate reads through is_inactive()",
     ("kanata_state_machine::kanata::sequences::SequenceState", "overlapped_sequence"): "cleared on key-state changes while a sequence is active (event-driven); activity is read by the predicate through is_inactive()",
     ("kanata_state_machine::kanata::sequences::SequenceState", "raw_oscs"): "cleared when a sequence is activated (a key press); activity is read by the predicate through is_inactive()",
@@ -389,6 +385,57 @@ def run_snapshot(prog):
                  "keystate_changed_after_read is computed with `%s` instead of an inequality test: the handlers that run after the keys "
                  "were read only remove states (macro cancel on release, override release-on-activation), so a shrink is the case that "
                  "matters; it is not noticed, is_idle becomes true with an output key still down and the loop blocks" % cmpop)
+    # caps-word ended by an action of this tick (caps-word-toggle): its shift was among the keys already sent, so that is a
+    # change after the read as well - the flag must learn of it
+    rb0 = reads[0]
+    ends = []
+    from kq.analysis import discr_switches as _ds
+    custom_phase = set()
+    for sw in _ds(prog, f):
+        if (sw.adt or "").endswith("custom_action::CustomAction"):
+            for v_ in sw.arms:
+                custom_phase |= sw.arm_region(v_)
+    for b0, s0, st0 in f.all_rvalues():
+        if not proj(st0["p"]) or not (root_desc(f, st0["p"]) or "").endswith(".caps_word") or not f.dominates(rb0, b0) or b0 == rb0:
+            continue
+        if b0 not in custom_phase:
+            continue          # before the keys are written (the key-list phase ends caps-word without adding its shift)
+        rv0 = st0["rv"]
+        if rv0["k"] == "use" and is_place(rv0["a"]) and not proj(rv0["a"]):
+            for dd in f.defs().get(rv0["a"]["l"], []):
+                if dd[2] == "assign" and dd[3]["k"] == "agg" and dd[3].get("v") == "None":
+                    ends.append(dd[0])
+        elif rv0["k"] == "agg" and rv0.get("v") == "None":
+            ends.append(b0)
+    if ends:
+        from kq.core import rvalue_operands as _rvo, is_const as _isc
+        from kq.analysis import control_deps as _cd
+        seen_l, seen_b, wl, true_defs = set(), set(), list(_rvo(rv)), []
+        while wl:
+            o = wl.pop()
+            if not is_place(o) or proj(o) or o["l"] in seen_l:
+                continue
+            seen_l.add(o["l"])
+            for dd in f.defs().get(o["l"], []):
+                if dd[2] == "assign":
+                    if dd[3]["k"] == "use" and _isc(dd[3]["a"]) and dd[3]["a"]["c"].get("ty") == "bool" and dd[3]["a"]["c"].get("v") == 1:
+                        true_defs.append(dd[0])
+                    wl.extend(_rvo(dd[3]))
+                    # `a || b`: the value also depends on the bool that decides which definition is taken
+                    if dd[0] not in seen_b and f.local_ty(o["l"]) == "bool":
+                        seen_b.add(dd[0])
+                        for S in _cd(f, dd[0]):
+                            tS = f.term(S)
+                            if tS.get("dty") == "bool" and f.dominates(rb0, S):
+                                wl.append(tS["d"])
+        oke = all(any(d == e or f.dominates(d, e) or f.dominates(e, d) for d in true_defs) for e in ends)
+        res.inst("caps-word-ended-after-read", where="%s:%s" % (f.file, f.line_of(ends[0])), ends=len(ends), ok=oke)
+        res.oblige(oke)
+        if not oke:
+            res.viol("caps-word-ended-after-read", "%s:%s" % (f.file, f.line_of(ends[0])),
+                     "an action handled after the keys of the tick were read sets caps_word to None (caps-word-toggle pressed while a "
+                     "capitalised key is held), but keystate_changed_after_read does not learn of it: caps-word's shift is among the keys "
+                     "already sent, is_idle sees caps_word.is_none() and the loop blocks with LShift down until the next input event")
     sb, stt = snap
     rb = reads[0]
     # calls between keycodes() and the snapshot that can touch the layout (take &mut of it / of self)
